@@ -95,6 +95,9 @@ impl World {
     /// three or more such terms depend on the order of addition. Every order-dependent float sum over the map or
     /// "first key" choice therefore differs between executions of the same input.
     fn train_config(&self, n: [u32; 4]) -> anyhow::Result<TrainConfig> {
+        self.train_config_typed(n, TrainType::Freight)
+    }
+    fn train_config_typed(&self, n: [u32; 4], train_type: TrainType) -> anyhow::Result<TrainConfig> {
         let car = |rv: &RailVehicle, name: &str, base: f64, freight: f64| {
             let mut v = rv.clone();
             v.car_type = name.into();
@@ -109,7 +112,7 @@ impl World {
             car(&self.rv_loaded, "Manifest_Partial", 31751.5, 48084.2),
         ];
         let counts: HashMap<String, u32> = rvs.iter().zip(n).map(|(rv, k)| (rv.car_type.clone(), k)).collect();
-        TrainConfig::new(rvs, counts, TrainType::Freight, None, None, None)
+        TrainConfig::new(rvs, counts, train_type, None, None, None)
     }
 }
 static WORLD: OnceLock<Result<World, String>> = OnceLock::new();
@@ -159,6 +162,40 @@ fn toy_net() -> anyhow::Result<(Network, Vec<LinkIdx>)> {
                         "rs":[[0,1024,16],[256,512,8]]}))
         .collect();
     let net = build::network(&json!({"oscale":1,"vscale":1,"escale":1,"links":links}))?;
+    Ok((net, (1..=n as u32).map(LinkIdx::new).collect()))
+}
+
+/// A corridor whose links carry per-train-type speed sets (the `speed_sets` map layout, `speed_set` = None): every
+/// link owns a HashMap with 2-3 keys, built afresh (new hasher, new iteration order) on every call.
+fn typed_net(desc: &Value) -> anyhow::Result<(Network, Vec<LinkIdx>)> {
+    let n = desc.get("links").and_then(|x| x.as_u64()).unwrap_or(4) as usize;
+    let types = ga(desc, "types");
+    let v = ga(desc, "v");
+    let len = 5000.0;
+    let mut links = vec![json!({
+        "idx_curr":0,"idx_flip":0,"idx_next":0,"idx_next_alt":0,"idx_prev":0,"idx_prev_alt":0,
+        "length":0.0,"elevs":[],"headings":[],"speed_sets":{},"speed_set":null,
+        "cat_power_limits":[],"link_idxs_lockout":[]
+    })];
+    for k in 1..=n {
+        let mut sets = serde_json::Map::new();
+        for (t, ty) in types.iter().enumerate() {
+            let speed = v[(t + k) % v.len()].as_f64().unwrap_or(10.0) + t as f64 * 3.0;
+            sets.insert(
+                ty.as_str().unwrap_or("Freight").to_string(),
+                json!({"speed_limits":[{"offset_start":0.0,"offset_end":len,"speed":speed},
+                                       {"offset_start":1000.0,"offset_end":2000.0,"speed":speed - 2.0}],
+                       "speed_params":[],"is_head_end":false}),
+            );
+        }
+        links.push(json!({
+            "idx_curr":k,"idx_flip":0,"idx_next": if k < n { k + 1 } else { 0 },"idx_next_alt":0,
+            "idx_prev":k-1,"idx_prev_alt":0,"length":len,
+            "elevs":[{"offset":0.0,"elev":(k-1) as f64 * 2.5},{"offset":len,"elev":k as f64 * 2.5}],
+            "headings":[],"speed_sets":sets,"speed_set":null,"cat_power_limits":[],"link_idxs_lockout":[]
+        }));
+    }
+    let net = Network::from_json(Value::Array(links).to_string())?;
     Ok((net, (1..=n as u32).map(LinkIdx::new).collect()))
 }
 
@@ -238,6 +275,41 @@ fn execute(desc: &Value) -> anyhow::Result<(bool, Node)> {
             };
             let r = s.walk();
             (r.is_ok(), Node::Seq(vec![tree(&s), Node::S(r.err().map(|e| errtxt(&e)).unwrap_or_default())]))
+        }
+        "typed" => {
+            // a train of one of the types the links know, on a network rebuilt from its description
+            let w = world()?;
+            let (net, route) = typed_net(desc)?;
+            let tt: TrainType = serde_json::from_value(desc["ttype"].clone())?;
+            let cars = ga(desc, "cars");
+            let c = |i: usize| cars.get(i).and_then(|x| x.as_u64()).unwrap_or(5) as u32;
+            let tc = w.train_config_typed([c(0), c(1), c(2), c(3)], tt)?;
+            let len = desc.get("len").and_then(|x| x.as_u64()).unwrap_or(100) as usize;
+            if gs(desc, "sim") == "setspeed" {
+                let tsb = TrainSimBuilder::new("t".into(), tc, Consist::default(), None, None, None);
+                match tsb.make_set_speed_train_sim(&net, &route, ramp(len, 0.05, 6.0), Some(1)) {
+                    Ok(mut s) => {
+                        let r = s.walk();
+                        (r.is_ok(), Node::Seq(vec![tree(&s), Node::S(r.err().map(|e| errtxt(&e)).unwrap_or_default())]))
+                    }
+                    Err(e) => (false, Node::S(errtxt(&e))),
+                }
+            } else {
+                let tsb = TrainSimBuilder::new("t".into(), tc, Consist::default(), Some("A".into()), Some("B".into()), None);
+                let lm = build::location_map(&[1], &[route.len() as u32]);
+                let mut s = tsb.make_speed_limit_train_sim(&lm, Some(5), None, None)?;
+                if let Err(e) = s.extend_path(net.as_ref(), &route) {
+                    return Ok((false, Node::Seq(vec![tree(&s.path_tpc), Node::S(format!("extend: {}", errtxt(&e)))])));
+                }
+                let mut r = Ok(());
+                for _ in 0..len {
+                    r = s.step();
+                    if r.is_err() || s.state.offset >= s.path_tpc.offset_end() {
+                        break;
+                    }
+                }
+                (r.is_ok(), Node::Seq(vec![tree(&s), Node::S(r.err().map(|e| errtxt(&e)).unwrap_or_default())]))
+            }
         }
         "speedlimit" => {
             let w = world()?;
@@ -358,7 +430,7 @@ fn gen(seed: u64, n: usize, tier: &str) -> Vec<Value> {
     for k in 0..n {
         let mut r = Rng::new(seed.wrapping_mul(9_176_533).wrapping_add(k as u64));
         let cars = |r: &mut Rng| json!([r.range(5, 50), r.range(1, 30), r.range(1, 20), r.range(1, 25)]);
-        let c = match k % 10 {
+        let c = match k % 12 {
             0 | 1 | 2 | 3 => {
                 // larger batches, random unit parameters, failing element at a random position (or none)
                 let nb = r.range(2, 12);
@@ -389,6 +461,17 @@ fn gen(seed: u64, n: usize, tier: &str) -> Vec<Value> {
                                     "depart": i * r.range(0, 15) * 60, "locos": r.range(3, 5)}))
                     .collect();
                 json!({"kind":"dispatch","trains":trains,"walk": r.chance(1, (4 / heavy) as u64)})
+            }
+            10 | 11 => {
+                // per-train-type speed sets on every link (2-3 types) and a train of one of those types
+                let all = ["Freight", "Intermodal", "Passenger"];
+                let nt = r.range(2, 3) as usize;
+                let types: Vec<&str> = if nt == 3 { all.to_vec() } else { vec!["Freight", *r.pick(&["Intermodal", "Passenger"])] };
+                let tt = *r.pick(&types);
+                json!({"kind":"typed","sim": if k % 12 == 10 {"setspeed"} else {"speedlimit"},"ttype":tt,"types":types,
+                       "v":(0..4).map(|_| r.range(7, 13)).collect::<Vec<_>>(),"links":r.range(2, 4),
+                       "cars":[r.range(3, 20), r.range(1, 10), r.range(1, 8), r.range(1, 8)],
+                       "len": r.range(40, 200) * heavy})
             }
             8 => json!({"kind":"setspeed","scale":*r.pick(&["toy","real"]),"cars":r.range(2, 30),"len":r.range(10, 200)}),
             _ => json!({"kind":"speedlimit","cars":cars(&mut r),"dir":*r.pick(&["AB","BA"]),"locos":r.range(3, 5),
